@@ -34,8 +34,9 @@ type Prog struct {
 	ctxCache   *ctxInfo
 	liveCache  map[*ssa.Function]bool
 
-	derivedState int
-	derivedTmpl  map[derivedKey]*Sym
+	derivedState   int
+	derivedTmpl    map[derivedKey]*Sym
+	derivedVirtual map[*types.Named]*Sym
 }
 
 // product packages per module (DESIGN.md §1). A missing one is a hard failure.
